@@ -164,6 +164,68 @@ fn check_until(damaged: &RawStore, heads: &std::collections::BTreeSet<String>, w
     }
 }
 
+/// A live replica holds every pack but lacks one block file; every block depending on it is held back.
+/// Then one of the already indexed packs is damaged in place (truncated / deleted / bytes appended), the
+/// missing block arrives and refresh runs: an error, or exactly the state of the intact complete subset.
+fn blocked_then_damaged(store: &RawStore, hist: &str) -> (u64, Option<Value>) {
+    let mut n = 0u64;
+    let deltas: Vec<String> = store.keys().filter(|k| k.ends_with(".delta")).cloned().collect();
+    let packs: Vec<String> = store.keys().filter(|k| k.ends_with(".pack")).cloned().collect();
+    let full = refmodel::analyse(store);
+    for missing in &deltas {
+        // only packs that belong to blocks which are held back while `missing` is absent: the packs of
+        // blocks the replica has already applied are outside the statement (an applied block stays applied)
+        let mut base0 = store.clone();
+        base0.remove(missing);
+        let held_back: Vec<&refmodel::RawBlock> = {
+            let a = refmodel::analyse(&base0);
+            full.blocks.values().filter(|b| !a.complete.contains(&b.id)).collect()
+        };
+        let applied_packs: std::collections::BTreeSet<String> = {
+            let a = refmodel::analyse(&base0);
+            a.blocks.values().filter(|b| a.complete.contains(&b.id)).flat_map(|b| b.packs.iter().map(|p| format!("{}.pack", p))).collect()
+        };
+        for p in &packs {
+            if !held_back.iter().any(|b| b.packs.iter().any(|q| &format!("{}.pack", q) == p)) || applied_packs.contains(p) {
+                continue;
+            }
+            for dmg in 0..3 {
+                n += 1;
+                let mut base = store.clone();
+                base.remove(missing);
+                let Ok((mut m, st)) = fresh_on(&base, "C10 live replica (one block missing)") else { continue };
+                let b = store[p].clone();
+                match dmg {
+                    0 => st.put_raw(p, b[..b.len() / 2].to_vec()),
+                    1 => st.remove_raw(p),
+                    _ => {
+                        let mut nb = b.clone();
+                        nb.extend_from_slice(b"[]");
+                        st.put_raw(p, nb)
+                    }
+                }
+                st.put_raw(missing, store[missing].clone());
+                set_trace("C10 refresh(after damage of an indexed pack)");
+                let r = crate::guard::call("refresh", || m.refresh());
+                let desc = format!("{} missing at open; then {} {} ; then {} delivered and refresh", missing, p, ["truncated to half", "deleted", "extended by two bytes"][dmg], missing);
+                match r {
+                    Err(pn) => return (n, Some(json!({"error": "refresh panicked", "panic": pn, "damage": desc, "input": {"history_of_store": hist}}))),
+                    Ok(Err(_)) => {}
+                    Ok(Ok(())) => {
+                        let v = view(&m);
+                        let now = st.snapshot();
+                        let want = fresh_view(&refmodel::complete_substore(&now), "C10 open(intact complete subset)");
+                        if v != want {
+                            return (n, Some(json!({"error": "state after refresh differs from the state of the intact, causally complete subset", "differs": diff_keys(&v, &want), "view": v, "expected": want, "damage": desc, "input": {"history_of_store": hist}})));
+                        }
+                    }
+                }
+            }
+        }
+    }
+    (n, None)
+}
+
 fn junk_menu(store: &RawStore) -> Vec<(String, Vec<u8>, &'static str)> {
     let mut v: Vec<(String, Vec<u8>, &'static str)> = vec![];
     let zeros = "0".repeat(64);
@@ -370,6 +432,13 @@ pub fn run(thorough: bool) {
         live_n += n;
         if let Some(d) = v {
             bad.lock().unwrap().push(("live-replica-exposes-altered-content".to_string(), d));
+        }
+    }
+    let bl: Vec<(u64, Option<Value>)> = stores.par_iter().map(|(hist, store)| blocked_then_damaged(store, hist)).collect();
+    for (n, v) in bl {
+        live_n += n;
+        if let Some(d) = v {
+            bad.lock().unwrap().push(("indexed-pack-damaged-before-held-back-block-is-released".to_string(), d));
         }
     }
     evals.fetch_add(live_n, Ordering::Relaxed);
